@@ -136,6 +136,19 @@ func (vC01Enc) Unmarshal(b []byte) (uint64, error) {
 	return binary.LittleEndian.Uint64(b), nil
 }
 
+// vC01EncUndec: Marshal as usual, Unmarshal fails for the flagged ids (an Encoding that does not round-trip)
+type vC01EncUndec struct{ bad map[uint64]bool }
+
+func (vC01EncUndec) Marshal(v uint64) ([]byte, error) { return vC01Enc{}.Marshal(v) }
+
+func (e vC01EncUndec) Unmarshal(b []byte) (uint64, error) {
+	v, err := vC01Enc{}.Unmarshal(b)
+	if err == nil && e.bad[v/16] {
+		return 0, errors.New("verif: cannot decode this item")
+	}
+	return v, err
+}
+
 type vC01ItemsSizer struct{}
 
 func (vC01ItemsSizer) Sizeof(v uint64) int64 { return int64(v % 16) }
@@ -296,6 +309,11 @@ type vC01Run struct {
 	acceptedIDs map[uint64]bool
 	handedIDs   map[uint64]bool
 	trnd        *rand.Rand // shapes of the error trees handed to OnDone
+	undec       map[uint64]bool // mode undec: ids whose stored bytes the Encoding refuses to decode (nil = every value decodes)
+	undecSeen   map[uint64]bool // … of which were observed to leave storage without any hand-off
+	finalIDs    map[uint64]bool
+	outIDs      map[uint64]uint64 // index of an outstanding hand-off -> id
+	rawDump     bool       // also print the raw storage map (hex) after every op: decoded by the Lean byte-level model
 	shutDoneWhileOthersInFlight bool // this incarnation: a hand-off completed with a shutdown error while another was in flight
 }
 
@@ -305,7 +323,7 @@ func vC01NewRun(out *vOut, c int, capacity int, reqSized bool, mode string) *vC0
 		s = "req"
 	}
 	out.Linef("case %d cap=%d sizer=%s mode=%s block=%d", c, capacity, s, mode, vB(mode == "block"))
-	return &vC01Run{out: out, capacity: capacity, reqSized: reqSized, st: map[string][]byte{}, nextID: 1, stats: map[string]int{}, acceptedIDs: map[uint64]bool{}, handedIDs: map[uint64]bool{}, trnd: vRand(c ^ 0x2f6b3a1d)}
+	return &vC01Run{out: out, capacity: capacity, reqSized: reqSized, st: map[string][]byte{}, nextID: 1, stats: map[string]int{}, acceptedIDs: map[uint64]bool{}, handedIDs: map[uint64]bool{}, trnd: vRand(c ^ 0x2f6b3a1d), rawDump: c%8 == 3, finalIDs: map[uint64]bool{}, outIDs: map[uint64]uint64{}}
 }
 
 func vC01Opt64(b []byte, ok bool) string {
@@ -371,6 +389,24 @@ func (r *vC01Run) obs(res string) {
 		size = strconv.FormatInt(r.pq.queueSize, 10)
 	}
 	r.out.Linef("obs r=%s size=%s %s", res, size, r.dump())
+	if r.undec != nil {
+		r.undecCheck()
+	}
+	if r.rawDump {
+		// the bytes themselves: the driver decodes them with readIndexes / readDi / readItem of Model/C01Bytes.lean
+		// (the subjects of C01_bytes_refine) and compares with the model's abstract store
+		keys := make([]string, 0, len(r.st))
+		for k := range r.st {
+			keys = append(keys, k)
+		}
+		sort.Strings(keys)
+		var sb strings.Builder
+		for _, k := range keys {
+			sb.WriteString(" " + vHex(k) + "=" + vHexB(r.st[k]))
+		}
+		r.out.Linef("tr raw%s", sb.String())
+		r.stats["raw_dumps_decoded_by_lean"]++
+	}
 	if os.Getenv("VERIF_REPLAY_CASE") != "" {
 		r.out.Flush() // a replayed case may hang: keep what was seen
 	}
@@ -414,6 +450,53 @@ func (r *vC01Run) guarded(op vC01Op, f func()) (died bool) {
 	}
 	r.cl.failAt = nil
 	return false
+}
+
+func (r *vC01Run) encoding() Encoding[uint64] {
+	if r.undec != nil {
+		return vC01EncUndec{bad: r.undec}
+	}
+	return vC01Enc{}
+}
+
+// undecCheck (mode undec, no model): the live Go-side oracle.  Every accepted request that decodes must stay stored until a
+// hand-off of it was completed finally; a request that does not decode is allowed to vanish, and that is COUNTED.
+func (r *vC01Run) undecCheck() {
+	stored := map[uint64]bool{}
+	for k, b := range r.st {
+		if _, err := strconv.ParseUint(k, 10, 64); err == nil && len(b) == 8 {
+			stored[binary.LittleEndian.Uint64(b)/16] = true
+		}
+	}
+	for id := range r.acceptedIDs {
+		if r.finalIDs[id] || stored[id] {
+			continue
+		}
+		if r.undec[id] {
+			if !r.undecSeen[id] {
+				r.undecSeen[id] = true
+				r.out.Linef("tr undecodable-request-left-storage id=%d handed=%d", id, vB(r.handedIDs[id]))
+				if !r.handedIDs[id] {
+					r.stats["undecodable_deleted_without_handoff"]++
+				}
+			}
+			continue
+		}
+		r.out.Linef("viol sig=C01/undec/decodable-request-lost id=%d handed=%d", id, vB(r.handedIDs[id]))
+	}
+}
+
+// undecWouldBlock: every item still queued is undecodable: Read would give them all up and then wait forever
+func (r *vC01Run) undecWouldBlock() bool {
+	if r.undec == nil {
+		return false
+	}
+	for i := r.pq.readIndex; i != r.pq.writeIndex; i++ {
+		if b, ok := r.st[strconv.FormatUint(i, 10)]; ok && len(b) == 8 && !r.undec[binary.LittleEndian.Uint64(b)/16] {
+			return false
+		}
+	}
+	return true
 }
 
 func (r *vC01Run) kill() {
@@ -513,7 +596,7 @@ func (r *vC01Run) do(op vC01Op) {
 			blockOnOverflow: r.block,
 			signal:    pipeline.SignalTraces,
 			storageID: component.ID{},
-			encoding:  vC01Enc{},
+			encoding:  r.encoding(),
 			id:        component.MustNewID("verif"),
 			telemetry: componenttest.NewNopTelemetrySettings(),
 		}).(*persistentQueue[uint64])
@@ -543,6 +626,10 @@ func (r *vC01Run) do(op vC01Op) {
 	case "offer":
 		id := r.nextID
 		r.nextID++
+		if r.undec != nil && r.trnd.IntN(4) == 0 {
+			r.undec[id] = true
+			r.stats["offers_of_undecodable_requests"]++
+		}
 		r.out.Linef("op offer id=%d sz=%d die=%d errs=%s", id, op.sz, op.die, vC01Errs(op.errs))
 		var err error
 		var sizeOf int64 = 1
@@ -596,7 +683,7 @@ func (r *vC01Run) do(op vC01Op) {
 		}
 	case "read":
 		r.out.Linef("op read die=%d errs=%s", op.die, vC01Errs(op.errs))
-		if !r.pq.stopped && r.pq.readIndex == r.pq.writeIndex {
+		if !r.pq.stopped && (r.pq.readIndex == r.pq.writeIndex || r.undecWouldBlock()) {
 			r.obs("empty") // Read would block; not called
 			return
 		}
@@ -618,6 +705,7 @@ func (r *vC01Run) do(op vC01Op) {
 		}
 		idx := done.(*indexDone).index
 		r.handedIDs[v/16] = true
+		r.outIDs[idx] = v / 16
 		r.outst = append(r.outst, vC01Out{idx: idx, done: done})
 		r.obs(fmt.Sprintf("item:%d:%d/%d", idx, v/16, v%16))
 	case "done":
@@ -648,6 +736,11 @@ func (r *vC01Run) do(op vC01Op) {
 		}
 		r.out.Linef("tr errtree %s", shape)
 		r.stats["done_errtree_depth_"+strconv.Itoa(strings.Count(shape, "("))]++
+		if op.oc != "shut" {
+			if id, ok := r.outIDs[o.idx]; ok {
+				r.finalIDs[id] = true
+			}
+		}
 		if experr.IsShutdownErr(err) != (op.oc == "shut") {
 			r.out.Linef("viol sig=C01/classify/shutdown-error-in-tree-misclassified shape=%s want=%d", shape, vB(op.oc == "shut"))
 		}
@@ -700,6 +793,14 @@ func (r *vC01Run) finish() {
 	r.out.Linef("stat deaths_in_recovery %d", r.deathsInStart)
 	if r.deaths >= 2 {
 		r.out.Linef("stat cases_with_2plus_deaths 1")
+	}
+	if r.undec != nil {
+		for id := range r.acceptedIDs {
+			if !r.handedIDs[id] && !r.undec[id] {
+				r.out.Linef("viol sig=C01/undec/decodable-request-never-handed id=%d", id)
+			}
+		}
+		r.out.Linef("stat undec_cases 1")
 	}
 	if r.errInjected {
 		// extension beyond the property (storage errors other than death): no oracle, counters only
@@ -1020,4 +1121,37 @@ func vC01Exhaustive(out *vOut) {
 	out.Linef("case 99999999 cap=1 sizer=req mode=stat")
 	out.Linef("stat exhaustive_cases %d", c-10000000)
 	out.Linef("end")
+}
+
+// TestVerifC01Undecodable: an Encoding whose Unmarshal fails on some stored requests (no model: the code deletes such
+// items in getNextItem and in recovery without any hand-off, which the lawful-Encoding model cannot follow).  Monitor with a
+// live Go-side oracle: every DECODABLE accepted request stays stored until finalised and is handed over; every
+// undecodable one that leaves storage without a hand-off is reported (tr line) and counted.
+func TestVerifC01Undecodable(t *testing.T) {
+	out := vOpen(t)
+	defer out.Close()
+	out.Linef("model c01-undec 1")
+	n := vN(300)
+	var curCase atomic.Int64
+	defer vC01Watchdog(out, &curCase)()
+	for _, c := range vCases(n) {
+		curCase.Store(int64(c))
+		vC01Progress.Add(1)
+		rnd := vRand(c)
+		capacity := 2 + rnd.IntN(8)
+		reqSized := rnd.IntN(2) == 0
+		if !reqSized {
+			capacity = 4 + rnd.IntN(20)
+		}
+		pDie := []int{0, 10, 25}[rnd.IntN(3)]
+		r := vC01NewRun(out, c, capacity, reqSized, "undec")
+		r.rawDump = false
+		r.undec = map[uint64]bool{}
+		r.undecSeen = map[uint64]bool{}
+		length := 5 + rnd.IntN(40)
+		for i := 0; i < length; i++ {
+			r.do(r.randomOp0(rnd, pDie))
+		}
+		r.finish()
+	}
 }
